@@ -117,8 +117,14 @@ func BuildClassList(classes ...any) (string, error) {
 		case []string:
 			classList = append(classList, class...)
 		case map[string]bool:
-			for cls, ok := range class {
-				if ok {
+			// for stable ordering of the classes
+			keys := make([]string, 0, len(class))
+			for cls := range class {
+				keys = append(keys, cls)
+			}
+			slices.Sort(keys)
+			for _, cls := range keys {
+				if class[cls] {
 					if cls == "" {
 						continue
 					}
